@@ -21,6 +21,7 @@ cat > "$base/harness/.cargo/config.toml" <<EOC
 offline = true
 [build]
 target-dir = "$base/target"
+jobs = 6
 EOC
 # Seed the scratch target dir with a copy of the shared one: third-party crates (librocksdb-sys,
 # wasm-opt-sys, wasmi, ...) are then reused instead of being cold-built (saves >10 min and a lot of CPU);
